@@ -6,7 +6,8 @@ Model of the parts of Go's `unicode/utf8` and `unicode/utf16` that `pkg/basictl`
 Bytes are `UInt8`, runes and all arithmetic are `Nat` (`x & 7` is written `x % 8`, `x >> 4` is `x / 16`,
 `a<<6 | b` with disjoint bit ranges is written `a * 64 + b`): the standard library is written with
 masks and shifts, the model with the equal `Nat` arithmetic so that `omega` can reason about it.
-The `first` table of the standard library is written by ranges.
+The `first` table of the standard library is written by ranges.  The length tests `n < size` are written on
+`t.take 4` (sizes are at most 4), so that the compiled driver does not walk the whole string at every rune.
 -/
 namespace TLVerif.Jsonp
 
@@ -52,7 +53,7 @@ def utf8Valid : Bytes → Bool
       if x = 0xF1 then false
       else
         let size := x % 8
-        if t.length + 1 < size then false
+        if (t.take 4).length + 1 < size then false
         else
           match t with
           | [] => false
@@ -81,7 +82,7 @@ def decodeRune (p : Bytes) : Nat × Nat :=
       (if x = 0xF1 then runeError else p0.toNat, 1)
     else
       let sz := x % 8
-      if t.length + 1 < sz then (runeError, 1)
+      if (t.take 4).length + 1 < sz then (runeError, 1)
       else
         match t with
         | [] => (runeError, 1)
